@@ -29,3 +29,8 @@ Proof. intro H. unfold solver_state_idx, reorder, vec_idx. rewrite <- (rev_lengt
 Theorem z_reads_site sigma i : binary sigma -> i < length sigma ->
   z_sign (length sigma) i (solver_state_idx sigma) = Nat.eqb (nth i sigma 0) 1.
 Proof. intros H Hi. unfold z_sign. rewrite conventions_agree by exact H. rewrite to_digits_kron by exact H. reflexivity. Qed.
+
+(* two-site operators: the embedded operator acts on the digits of sites s and s+1 *)
+Theorem pair_reads_its_sites sigma s : binary sigma -> S s < length sigma ->
+  pair_digit (length sigma) s (solver_state_idx sigma) = 2 * nth s sigma 0 + nth (S s) sigma 0.
+Proof. intros B H. unfold pair_digit. rewrite conventions_agree by exact B. rewrite to_digits_kron by exact B. reflexivity. Qed.
